@@ -274,6 +274,44 @@ def wrong_key(issuer: int, vk: int, d0: bytes, d1: bytes) -> bool:
     return Used.material[0] is want and ok == (d0 == d1)
 
 
+# ------------------------------------------------------------------------------------ O1.4 signature integers reach the primitive unaltered
+R0 = int.from_bytes(bytes(range(1, 33)), 'big')
+S0 = int.from_bytes(bytes(range(101, 133)), 'big')
+
+
+@ob('O1.4', 'signature integers: two signature packets whose integers differ never hand the same octets to the verifying primitive '
+            '(also for integers wider than the curve size: they must not be truncated or wrapped)',
+    'EdDSA: r = a*2^256 + R0, s = c*2^256 + S0 against r\' = b*2^256 + R0, s\' = d*2^256 + S0 with a,b,c,d in 0..3 (values up to 258 bits) and a low octet from {0,1,255} each (2304 combinations, enumerated per path); '
+    'RSA: two symbolic integers below 2^32', cond_timeout={'q': 280, 't': 900}, flags=('symmpi',), partitions=[['alg == 22', 'a == %d' % i] for i in range(4)] + [['alg == 1']])
+def sig_integers_distinct(alg: int, a: int, b: int, c: int, d: int, lo1: int, lo2: int, v1: int, v2: int) -> bool:
+    """
+    pre: alg in (22, 1)
+    pre: 0 <= a < 4 and 0 <= b < 4 and 0 <= c < 4 and 0 <= d < 4
+    pre: lo1 in (0, 1, 255) and lo2 in (0, 1, 255)
+    pre: 0 <= v1 < 2**32 and 0 <= v2 < 2**32
+    pre: alg == 1 or (v1 == 0 and v2 == 0)
+    pre: alg == 22 or (a == 0 and b == 0 and c == 0 and d == 0 and lo1 == 0 and lo2 == 0)
+    post: _
+    """
+    from pgpy.packet import types as T
+    if alg == 22:
+        vals = [0, 0, 0, 0, 0, 0]
+        for j, sym in enumerate((a, b, c, d, lo1, lo2)):       # concrete value per path: 258-bit symbolic integers are beyond the solver
+            for k in (range(4) if j < 4 else (0, 1, 255)):
+                if sym == k:
+                    vals[j] = k
+        a, b, c, d, lo1, lo2 = vals
+        x, y = F.EdDSASignature(), F.EdDSASignature()
+        x.r, x.s = T.MPI(a * 2 ** 256 + R0 - (R0 % 256) + lo1), T.MPI(c * 2 ** 256 + S0)
+        y.r, y.s = T.MPI(b * 2 ** 256 + R0 - (R0 % 256) + lo2), T.MPI(d * 2 ** 256 + S0)
+        same = bytes(x.__sig__()) == bytes(y.__sig__())
+        return (not same) or (a == b and c == d and lo1 == lo2)
+    x, y = F.RSASignature(), F.RSASignature()
+    x.md_mod_n, y.md_mod_n = T.MPI(v1), T.MPI(v2)
+    same = bytes(x.__sig__()) == bytes(y.__sig__())
+    return (not same) or v1 == v2
+
+
 # ------------------------------------------------------------------------------------ O1.2 injectivity of the reference model
 @ob('O1.2', 'lemma on the reference model: equal RFC hash inputs imply equal (kind, octets): with C02-O2.1 (real = reference) this carries '
             'injectivity over to the real hashdata for subject kinds that the two-copy harnesses do not pair directly',
@@ -317,4 +355,4 @@ SANITY = ['sound_doc(0, 0, b"ab", b"ab", 8, 8, "u", "u", 5, 5)', 'sound_doc(0, 0
           'sound_uid_vs_attr(0, b"k", b"k", "abc", b"xyz")', 'sound_uid_vs_attr(1, b"k", b"k", "", b"")',
           'sound_key(0, 0, b"p", b"s", b"p", b"s")', 'sound_key(2, 2, b"p", b"s", b"p", b"t")', 'sound_key(2, 3, b"p", b"s", b"p", b"s")', 'sound_key(1, 1, b"", b"", b"", b"x")',
           'wrong_key(0, 0, b"d", b"d")', 'wrong_key(1, 0, b"d", b"d")', 'wrong_key(2, 0, b"d", b"d")', 'wrong_key(0, 1, b"d", b"d")', 'wrong_key(2, 1, b"d", b"e")',
-          'wrong_key(1, 0, b"d", b"e")', 'spec_injective(0, 1, b"a", b"k", b"a", b"k")', 'spec_injective(1, 2, b"", b"k", b"", b"k")', 'spec_injective(4, 4, b"s", b"p", b"s", b"p")']
+          'wrong_key(1, 0, b"d", b"e")', 'sig_integers_distinct(22, 0, 1, 0, 0, 5, 5, 0, 0)', 'sig_integers_distinct(22, 2, 2, 1, 1, 5, 5, 0, 0)', 'sig_integers_distinct(1, 0, 0, 0, 0, 0, 0, 7, 7)', 'sig_integers_distinct(1, 0, 0, 0, 0, 0, 0, 7, 263)', 'spec_injective(0, 1, b"a", b"k", b"a", b"k")', 'spec_injective(1, 2, b"", b"k", b"", b"k")', 'spec_injective(4, 4, b"s", b"p", b"s", b"p")']
